@@ -3,6 +3,7 @@ package props
 import (
 	"bytes"
 	"encoding/hex"
+	"fmt"
 	"os"
 	"runtime"
 
@@ -112,6 +113,28 @@ type c12Gen struct {
 func (g *c12Gen) add(cs c12Case) { g.cases = append(g.cases, cs) }
 
 func (g *c12Gen) lens(max int) int { return g.r.Intn(max + 1) }
+
+// c12Password: PBES2 passwords by CLASS — the password is an octet string (RFC 7518 §4.8: no normalisation of
+// any kind), so its VALUE and LENGTH must not matter beyond PBKDF2-HMAC itself: lengths around the HMAC block
+// sizes (64 for SHA-256, 128 for SHA-384/512: longer keys are hashed by HMAC with the PRF's own hash), leading /
+// trailing octets that text handling would strip (UTF-8 BOM, white space, NUL, CR LF), invalid UTF-8.
+func c12Password(r *vf.Rand) (pw []byte, class string) {
+	switch r.Intn(8) {
+	case 0:
+		n := []int{63, 64, 65, 96, 127, 128, 129, 200}[r.Intn(8)]
+		return r.Bytes(n), fmt.Sprintf("len=%d", n)
+	case 1:
+		pre := [][]byte{{0xef, 0xbb, 0xbf}, {' '}, {'\t'}, {0}, {'\n'}, {0xfe, 0xff}, {0xff, 0xfe}}[r.Intn(7)]
+		return append(append([]byte{}, pre...), r.Bytes(1+r.Intn(20))...), fmt.Sprintf("prefix=%x", pre)
+	case 2:
+		suf := [][]byte{{'\n'}, {'\r', '\n'}, {' '}, {0}, {0xef, 0xbb, 0xbf}}[r.Intn(5)]
+		return append(r.Bytes(1+r.Intn(20)), suf...), fmt.Sprintf("suffix=%x", suf)
+	case 3:
+		return append([]byte{0xc3, 0x28, 0xff, 0x80}, r.Bytes(r.Intn(12))...), "invalid-utf8"
+	default:
+		return r.Bytes(1 + r.Intn(41)), "random"
+	}
+}
 
 var c12PrivLen = map[string]int{"P-256": 32, "P-384": 48, "P-521": 66, "X25519": 32}
 var c12Curves = []string{"P-256", "P-384", "P-521", "X25519"}
@@ -243,6 +266,10 @@ func (g *c12Gen) valid() {
 		}
 		for pc := 1; pc <= 50; pc++ {
 			g.add(c12Case{Stream: "valid", Prim: "pbes2", Op: "wrap", Alg: alg, Key: r.Bytes(1 + g.lens(40)), P2S: r.Bytes(g.lens(64)), P2C: pc, In: r.Bytes(ceks[r.Intn(7)])})
+		}
+		for k := 0; k < 40; k++ { // password classes (lengths around the HMAC block sizes, BOM / white space / NUL at the ends)
+			pw, class := c12Password(r)
+			g.add(c12Case{Stream: "valid", Prim: "pbes2", Op: "wrap", Alg: alg, Key: pw, P2S: r.Bytes(g.lens(16)), P2C: 1 + r.Intn(5), In: r.Bytes(ceks[r.Intn(7)]), Mut: "pw:" + class})
 		}
 		for k := 0; k < 2*rep; k++ {
 			g.add(c12Case{Stream: "valid", Prim: "pbes2", Op: "wrap", Alg: alg, Key: r.Bytes(1 + g.lens(40)), P2S: r.Bytes(g.lens(64)), P2C: 0, In: r.Bytes(ceks[r.Intn(7)])})
